@@ -437,6 +437,9 @@ pub fn c06_case(seed: u64, idx: u64) -> Option<(Model, String, String)> {
         let k = rng.below(runner::PAYLOADS.len());
         t.ty = runner::payload_type(k);
     }
+    if rng.chance(0.3) {
+        confusable_terminal_names(&mut m, &mut rng);
+    }
     let src = m.render();
     let lib = format!("#![allow(warnings)]\npub struct Pay(pub usize);\npub mod gen;\n{}", client_source(&m));
     Some((m, src, lib))
